@@ -96,6 +96,21 @@ pub fn opts_default() -> RunOptions {
     RunOptions::default()
 }
 
+/// Options as an input of compile(): default, explicit thread counts, depth - chosen by a case key.
+pub fn opts_for(key: u64) -> RunOptions {
+    let mut o = RunOptions::default();
+    match key % 4 {
+        1 => o.threads = Some(1 + (key / 4 % 16) as u32),
+        2 => {
+            o.threads = Some(1);
+            o.depth = true;
+        }
+        3 => o.depth = true,
+        _ => {}
+    }
+    o
+}
+
 pub fn io_map_sorted(m: &Option<HashMap<u32, Target>>) -> String {
     match m {
         None => "None".to_string(),
